@@ -210,6 +210,37 @@ def check_case(res, model, desc, mode, ids, tag):
     return dupidx
 
 
+def check_edited(res, desc, rng, tag):
+    """the report is a function of the reactions as they are NOW: search in every mode, edit type / window of some reactions
+    in place, search again - against the pairwise reference of the edited description"""
+    net, rl = build_net(desc)
+    for mode in MODES:
+        impl_report(net, rl, mode)
+    desc2 = [dict(d) for d in desc]
+    for k in rng.sample(range(len(desc)), rng.randint(1, max(1, len(desc) // 2))):
+        what = rng.choice(["type", "window", "both"])
+        if what in ("type", "both"):
+            desc2[k]["type"] = int(rng.choice([t for t in TYPES if int(t) != desc2[k]["type"]] or TYPES))
+            rl[k].reaction_type = ReactionType(desc2[k]["type"])
+        if what in ("window", "both"):
+            w = rng.choice(WINDOWS)
+            desc2[k]["tmin"], desc2[k]["tmax"] = w
+            rl[k].temp_min, rl[k].temp_max = w
+    case = {"kind": "c15-edited", "desc": desc, "edited": desc2}
+    for mode in MODES:
+        dupidx, first, _ = impl_report(net, rl, mode)
+        ref_dup, ref_first, is_equiv = reference(len(rl), mode_eq(desc2, mode))
+        if not is_equiv:
+            continue
+        if dupidx != ref_dup or sorted(first) != ref_first:
+            res.violation("oracle", f"second search (mode={mode}) after editing type/window of some reactions in place: impl dupidx={dupidx} first={first}; "
+                                    f"reference for the edited list dupidx={ref_dup} first={ref_first} (the first search saw dupidx="
+                                    f"{reference(len(rl), mode_eq(desc, mode))[0]})", dict(case, mode=mode))
+            break
+    res.count("edited-then-searched-again lists")
+    res.case(("c15-edited", tag, repr(desc2)), nontrivial=True)
+
+
 KNOWN_DEFAULT = {
     "finding": "C15-default-unknown-wildcard",
     "a": dict(r=["H", "C"], p=["CO"], tmin=-1.0, tmax=-1.0, type=100, idx=0),
@@ -237,7 +268,8 @@ def run(res, info):
     ids = ident_map()
     res.rule = ("duplicate-rich reaction lists over an 18-name alphabet (four electron spellings) (1-3 reactants with repeats, 0-4 products, "
                 "permuted, windows/types varied) x modes {default, brief, minimal, short}; a case is non-trivial when "
-                "the pairwise reference reports at least one duplicate; distinct = distinct (list, mode)")
+                "the pairwise reference reports at least one duplicate; lists searched, edited in place (type / window) and searched again; "
+                "distinct = distinct (list, mode)")
     res.assumptions = ["one spelling per species inside a list, except for the electron (docstring caveat of find_duplicate_reaction)",
                        "default mode: lists without UNKNOWN-typed reactions (otherwise __eq__ is not an equivalence; known finding)"]
     n_lists = 150 if res.tier == "quick" else 3000
@@ -266,6 +298,8 @@ def run(res, info):
         desc = gen_list(rng, rng.choice([3, 5, 8]), allow_unknown=True)
         for mode in MODES:
             check_case(res, model, desc, mode, ids, ("unk", i))
+    for i in range(n_lists // 2):
+        check_edited(res, gen_list(rng, rng.choice([2, 3, 4, 6, 8])), rng, i)
     known_finding_default(res)
     if model:
         model.close()
